@@ -273,7 +273,7 @@ def run(prog: Program, res: Result, tier: str) -> None:
 
     res.floor("R7", 9)
     res.floor("R1", 15)
-    res.floor("R2", 15)
+    res.floor("R2", 16)
     res.floor("R3", 40)
     res.floor("R4", 6)
     res.floor("R5", 3)
@@ -655,14 +655,12 @@ def _label_span(prog: Program, res: Result) -> None:
     # subband
     f, ups = site("sigpyproc.base", "Filterbank.subband", "prep_outfile")
     for c, d in ups:
-        a, b, why = ab(f, d, c, stop=("subfactor",))
-        k = sym("subfactor")
+        # k is the number of channels summed per sub-band, nchans // nsub - whatever local holds it (also one half of a divmod)
+        a, b, why = ab(f, d, c)
+        k = PolyEnv().poly(ast.parse("self.header.nchans // nsub", mode="eval").body)
         report(f, c, "subband", a, b, why, None, k, "sub-banding (k = nchans // nsub channels summed per sub-band)", between=k)
-        # k really is nchans // nsub and the kernel's channel->subband map uses the same k
-        flow = flow_of(f)
-        ds = [dd for dd in flow.reaching("subfactor", flow.cfg.node_for(c)) if dd.kind == "assign"]
-        okk = len(ds) == 1 and norm(ds[0].value) == "self.header.nchans // nsub"
-        (res.ok if okk else res.bad)("R4", f, c, "subfactor = header.nchans // nsub" if okk else "sub-band width is not header.nchans // nsub",
+        okk = not why and b == k
+        (res.ok if okk else res.bad)("R4", f, c, "the sub-band width in the label is header.nchans // nsub" if okk else "sub-band width is not header.nchans // nsub",
                                      key="subband:k")
     # extract_bands
     f, ups = site("sigpyproc.base", "Filterbank.extract_bands", "prep_outfile")
@@ -762,6 +760,40 @@ def _scaling_and_dm(prog: Program, res: Result) -> None:
         (res.ok if ok else res.bad)("R6", f, ctor[0] if ctor else f.node, "the block records the DM it was dedispersed at" if ok else
                                     "the dedispersed block does not record its DM", key=key, construct=qual)
 
+    # the DM a block reports is the DM its data are at: a further dedispersion shifts by what is left (F58) - shifting an
+    # already dedispersed block by the full delays of the new DM leaves data at old + new under the label `new`
+    from ..normalform import canon as _cn6, strip_ordinals as _so6
+    for qual in ("FilterbankBlock.dedisperse", "FilterbankBlock.dmt_transform"):
+        f = prog.func("sigpyproc.block", qual)
+        fl6 = flow_of(f)
+        gets = [c for c in calls_in_body(f.node) if (dotted(c.func) or "").endswith("get_dmdelays") and c.args]
+        ctor = [c for c in calls_in_body(f.node) if (dotted(c.func) or "").split(".")[-1] in ("FilterbankBlock", "DMTBlock") and len(c.args) > 2]
+        ok6 = len(gets) == 1 and len(ctor) >= 1
+        why6 = "expected one get_dmdelays call and a block construction with a DM"
+        if ok6:
+            applied = _so6(_cn6(fl6.expand(gets[0].args[0], fl6.cfg.node_for(gets[0]))))
+            for c in ctor:
+                label = fl6.expand(c.args[2], fl6.cfg.node_for(c))
+                want = _so6(_cn6(ast.BinOp(left=label, op=ast.Sub(), right=ast.parse("self.dm", mode="eval").body)))
+                if applied != want:
+                    ok6 = False
+                    why6 = (f"the delays applied are those of `{norm(gets[0].args[0])}` while the result is labelled `{norm(c.args[2])}`: for a block that is already "
+                            "dedispersed (self.dm != 0) the data end up at self.dm + dm under the label dm")
+        (res.ok if ok6 else res.bad)("R6", f, gets[0] if gets else f.node, "the shift applied is that of (label - this block's DM): the label describes the data" if ok6 else
+                                     f"{qual}: {why6}", key=f"{qual}:residual-dm", construct=qual)
+    # a block read from a file is as dedispersed as the file says (F57): to_file records the *block's* DM as the reference
+    # DM, so a block built from file samples without the file's DM loses it on the way back to disk
+    for rq in ("FilReader.read_block", "PFITSReader.read_block"):
+        f = prog.func("sigpyproc.readers", rq)
+        ctor = [c for c in calls_in_body(f.node) if (dotted(c.func) or "").endswith("FilterbankBlock")]
+        flow_r = flow_of(f)
+        okr = bool(ctor)
+        for c in ctor:
+            arg = c.args[2] if len(c.args) > 2 else next((k.value for k in c.keywords if k.arg == "dm"), None)
+            okr = okr and arg is not None and norm(flow_r.expand(arg, flow_r.cfg.node_for(c))) in ("self.header.dm", "self._header.dm")
+        (res.ok if okr else res.bad)("R6", f, ctor[0] if ctor else f.node, "the block carries the file's reference DM" if okr else
+                                     "the block is built from the file's samples without the file's DM: it reports DM 0 for a file written at a DM, "
+                                     "and to_file then writes refdm 0 for the same data", key=f"{rq}:file-dm", construct=rq)
     # the DM stays with the data through every derived block and into the file (F40)
     blk = prog.cls("sigpyproc.block", "FilterbankBlock")
     base_blk = prog.cls("sigpyproc.block", "BaseBlock")
@@ -814,6 +846,27 @@ def _scaling_and_dm(prog: Program, res: Result) -> None:
         (res.ok if ok else res.bad)("R2", f, f.node, f"with only_valid_samples the product's tstart is advanced by max(0, -min delay), the first column {kern} keeps"
                                     if ok else f"{qual}: {why}; the valid-samples product begins max(0, -min delay) samples after the block, "
                                     "so tstart must be advanced by that", construct=qual, key=f"{qual}:valid-tstart")
+    # a padded block begins `offset` samples before the block it pads: wherever the original samples are stored at
+    # column L of the new array, tstart moves back by L samples (F56)
+    f = prog.func("sigpyproc.block", "BaseBlock.pad_samples")
+    flow = flow_of(f)
+    from ..normalform import canon as _canon, strip_ordinals as _strip
+    stores = [s_ for s_ in body_walk(f.node) if isinstance(s_, ast.Assign) and len(s_.targets) == 1 and isinstance(s_.targets[0], ast.Subscript)
+              and norm(s_.value) == "self.data" and isinstance(s_.targets[0].slice, ast.Tuple) and len(s_.targets[0].slice.elts) == 2
+              and isinstance(s_.targets[0].slice.elts[1], ast.Slice) and s_.targets[0].slice.elts[1].lower is not None]
+    ok, why = False, "pad_samples no longer stores the original samples at a column offset of the padded array"
+    if len(stores) == 1:
+        low = flow.expand(stores[0].targets[0].slice.elts[1].lower, flow.cfg.node_for(stores[0]))
+        want = _strip(_canon(ast.Call(func=ast.parse("self.header.mjd_after_nsamps", mode="eval").body,
+                                      args=[ast.UnaryOp(op=ast.USub(), operand=low)], keywords=[])))
+        why = "the padded block's header keeps the tstart of the block it pads, although its first sample is `offset` samples earlier"
+        for c, d, k2, _ in _header_updates(f):
+            if d and "tstart" in d:
+                got = _strip(_canon(flow.expand(d["tstart"], flow.cfg.node_for(c))))
+                ok = got == want
+                why = f"tstart is `{norm(d['tstart'])}`, not mjd_after_nsamps(-offset): the padded block begins `offset` samples before the block it pads"
+    (res.ok if ok else res.bad)("R2", f, f.node, "the padded block's tstart is moved back by the column at which the original samples are stored" if ok else f"pad_samples: {why}",
+                                construct="pad_samples", key="pad_samples:tstart")
 
 B = "sigpyproc/base.py"
 MUTANTS = [
@@ -856,7 +909,7 @@ MUTANTS = [
      "old": "        # Channel whose centre is nearest to fch1 (the band may ascend or descend)\n        chan_start = round((fch1 - self.header.fch1) / self.header.foff)\n        nchans = nchans if nchans is not None else self.header.nchans - chan_start\n        if chan_start < 0 or nchans < 1 or chan_start + nchans > self.header.nchans:\n            msg = f\"requested block is out of range: fch1={fch1}, nchans={nchans}\"\n            raise ValueError(msg)\n        if start < 0 or start + nsamps > self.header.nsamples:\n            msg = f\"requested block is out of range: start={start}, nsamps={nsamps}\"\n            raise ValueError(msg)\n\n        self._file.seek",
      "new": "        chan_start = int((fch1 - self.header.fch1) / self.header.foff)\n        nchans = nchans if nchans is not None else self.header.nchans - chan_start\n        if chan_start < 0 or nchans < 1 or chan_start + nchans > self.header.nchans:\n            msg = f\"requested block is out of range: fch1={fch1}, nchans={nchans}\"\n            raise ValueError(msg)\n        if start < 0 or start + nsamps > self.header.nsamples:\n            msg = f\"requested block is out of range: start={start}, nsamps={nsamps}\"\n            raise ValueError(msg)\n\n        self._file.seek"},
     {"id": "c08-pad-no-nsamples", "file": "sigpyproc/block.py", "expect": "C08.R1",
-     "old": "            self.header.new_header({\"nsamples\": nsamps_final}),", "new": "            self.header.new_header(),"},
+     "old": "                    \"nsamples\": nsamps_final,\n", "new": ""},
     {"id": "c08-ts-downsample-tsamp", "file": "sigpyproc/timeseries.py", "expect": "C08.R6",
      "old": "hdr_changes = {\"tsamp\": self.header.tsamp * factor, \"nsamples\": len(tim_data)}", "new": "hdr_changes = {\"tsamp\": self.header.tsamp, \"nsamples\": len(tim_data)}"},
     {"id": "c08-dedisp-dm-dropped", "file": B, "expect": "C08.R6",
@@ -898,6 +951,19 @@ MUTANTS += [
      "old": "                    for filename, chan in zip(batch_files, batch_chans, strict=True)", "new": "                    for chan, filename in enumerate(batch_files)"},
     {"id": "c08-tstart-gulp", "file": B, "expect": "C08.R2",
      "old": "            updates={\"tstart\": self.header.mjd_after_nsamps(start)},\n            nbits=nbits_out,", "new": "            updates={\"tstart\": self.header.mjd_after_nsamps(gulp)},\n            nbits=nbits_out,"},
+]
+MUTANTS += [
+    {"id": "c08-revert-F58-dedisperse", "file": "sigpyproc/block.py", "expect": "C08.R6",
+     "old": "        delays = self.header.get_dmdelays(dm - self.dm, ref_freq=ref_freq)\n", "new": "        delays = self.header.get_dmdelays(dm, ref_freq=ref_freq)\n"},
+    {"id": "c08-revert-F58-dmt", "file": "sigpyproc/block.py", "expect": "C08.R6",
+     "old": "        dm_delays = self.header.get_dmdelays(dm_arr - self.dm, ref_freq=ref_freq)\n", "new": "        dm_delays = self.header.get_dmdelays(dm_arr, ref_freq=ref_freq)\n"},
+    {"id": "c08-revert-F57-fil", "file": "sigpyproc/readers.py", "expect": "C08.R6",
+     "old": "        return FilterbankBlock(data_block, new_header, dm=self.header.dm)\n\n    def read_dedisp_block(self, start: int, nsamps: int, dm: float) -> FilterbankBlock:\n        delays",
+     "new": "        return FilterbankBlock(data_block, new_header)\n\n    def read_dedisp_block(self, start: int, nsamps: int, dm: float) -> FilterbankBlock:\n        delays"},
+    {"id": "c08-revert-F56", "file": "sigpyproc/block.py", "expect": "C08.R2",
+     "old": "                    \"tstart\": self.header.mjd_after_nsamps(-offset),\n", "new": ""},
+    {"id": "c08-pad-tstart-forward", "file": "sigpyproc/block.py", "expect": "C08.R2",
+     "old": "                    \"tstart\": self.header.mjd_after_nsamps(-offset),\n", "new": "                    \"tstart\": self.header.mjd_after_nsamps(offset),\n"},
 ]
 TWINS = [
     {"id": "c08-twin-len", "file": B,
